@@ -291,4 +291,36 @@ def run(ctx):
             except Exception as ex:
                 ctx.violation('C10|%s|out-of-range-raised-%s|value-outside-unit-interval' % (cls.__name__, type(ex).__name__),
                               '%s.fit raised %s for a value outside [0,1]' % (cls.__name__, type(ex).__name__), {'X': X.tolist()})
+    # extended-precision columns: values that differ, or leave [0, 1], by less than a double's resolution are different values there
+    if np.finfo(np.longdouble).eps < np.finfo(float).eps:
+        from scipy import stats
+        base = np.longdouble(0.5)
+        step = np.longdouble(2.0) ** -60
+        xs = np.array([base + step * k for k in (0, 3, 1, 2, 5, 4)], dtype=np.longdouble)
+        ys = np.array([0.2, 0.5, 0.3, 0.9, 0.6, 0.8], dtype=np.longdouble)
+        X = np.column_stack([xs, ys])
+        conc = sum(np.sign(xs[j] - xs[i]) * np.sign(ys[j] - ys[i]) for i in range(6) for j in range(i + 1, 6))
+        tau = float(conc) / 15.0
+        for cls in (Clayton, Frank, Gumbel):
+            ctx.case('longdouble|%s' % cls.__name__)
+            try:
+                m = cls()
+                m.fit(X.copy())
+                if abs(float(m.tau) - tau) > 1e-12:
+                    ctx.violation('C10|%s|tau-is-not-kendall-tau-b|extended-precision' % cls.__name__,
+                                  '%s.fit on longdouble columns 0.5 + k 2^-60: tau %r instead of %r' % (cls.__name__, float(m.tau), tau), {'X': [[float(a), float(b)] for a, b in X]})
+            except Exception as ex:
+                ctx.violation('C10|%s|admissible-fit-raised-%s|extended-precision' % (cls.__name__, type(ex).__name__),
+                              '%s.fit raised on longdouble columns with tau %r' % (cls.__name__, tau), {})
+        bad = X.copy()
+        bad[2, 0] = np.longdouble(1.0) + np.longdouble(2.0) ** -62
+        for cls in (Clayton, Frank, Gumbel):
+            ctx.case('longdouble-oob|%s' % cls.__name__)
+            try:
+                cls().fit(bad.copy())
+                ctx.violation('C10|%s|out-of-range-accepted|extended-precision' % cls.__name__, '%s.fit accepted 1 + 2^-62 (longdouble)' % cls.__name__, {})
+            except ValueError:
+                pass
+            except Exception as ex:
+                ctx.violation('C10|%s|out-of-range-raised-%s|extended-precision' % (cls.__name__, type(ex).__name__), 'longdouble value above 1', {})
     ctx.exhaustive = True
